@@ -394,7 +394,7 @@ def correspondence(ctx):
 
     # --- to_file_string
     cases = []
-    budget = ctx.n(40000, 600000)
+    budget = ctx.n(40000, 300000)
     used = 0
     while used < budget:
         ts = rng.choice([1, 1, 2, 3, 4, 6]) if rng.random() < 0.7 else rng.choice(VALID_TS)
@@ -446,7 +446,7 @@ def correspondence(ctx):
 
     # --- from_file
     cases = []
-    budget = ctx.n(25000, 500000)
+    budget = ctx.n(20000, 250000)
     used = 0
 
     def add_read(ts, leap, lines, tag):
@@ -526,7 +526,7 @@ def correspondence(ctx):
 
     # --- from_dict
     cases = []
-    for _ in range(ctx.n(220, 5000)):
+    for _ in range(ctx.n(130, 2500)):
         ts = rng.choice([1, 1, 2, 3, 4, 6, 60])
         leap = rng.random() < 0.5
         r = rng.random()
@@ -783,46 +783,41 @@ def _ap_pred_moys(sm, sd, sh, em, ed, eh, ts, leap):
 
 
 def _expected_positions(w, f, ts, leap):
-    src = [d.moy for d in w.direct_normal_irradiance.datetimes]
-    pos = {m: i for i, m in enumerate(src)}
-    if f['kind'] == 'period':
-        return [pos[m] for m in _ap_pred_moys(*(f['args'] + [ts, leap])) if m in pos]
-    if f['kind'] in ('moys', 'hoys'):
-        return [pos[m] for m in f['moys'] if m in pos]
-    return [0]
-
-
-def _apply_filter(w, f, ts, leap):
-    """Apply filter spec `f` with the real code; return (filtered Wea, expected source positions)."""
-    from ladybug.analysisperiod import AnalysisPeriod
-    step = 60 // ts
+    """Source positions the filter spec `f` selects (independent of the filter code)."""
     src = [d.moy for d in w.direct_normal_irradiance.datetimes]
     pos = {m: i for i, m in enumerate(src)}
     kind = f['kind']
     if kind == 'period':
-        ap = AnalysisPeriod(*(f['args'] + [ts, leap]))
-        want = [pos[m] for m in _ap_pred_moys(*(f['args'] + [ts, leap])) if m in pos]
-        return w.filter_by_analysis_period(ap), want
-    if kind == 'moys':
-        want = [pos[m] for m in f['moys'] if m in pos]
-        return w.filter_by_moys(f['moys']), want
-    if kind == 'hoys':
-        hoys = [m / 60.0 for m in f['moys']]
-        want = [pos[m] for m in f['moys'] if m in pos]
-        return w.filter_by_hoys(hoys), want
+        return [pos[m] for m in _ap_pred_moys(*(f['args'] + [ts, leap])) if m in pos]
+    if kind in ('moys', 'hoys'):
+        return [pos[m] for m in f['moys'] if m in pos]
     if kind == 'pattern':
         pat = f['pattern']
-        want = [i for i in range(len(src)) if pat[i % len(pat)]]
-        return w.filter_by_pattern(pat), want
+        return [i for i in range(len(src)) if pat[i % len(pat)]]
     if kind == 'sun_up':
         from ladybug.sunpath import Sunpath
         sp = Sunpath.from_location(w.location)
         sp.is_leap_year = leap
         sh = 30 if (ts == 1 and not w.enforce_on_hour) else 0
-        want = [i for i, m in enumerate(src)
+        return [i for i, m in enumerate(src)
                 if sp.calculate_sun_from_date_time(_lb_dt(leap, m + sh)).altitude > f['min_alt']]
-        return w.filter_by_sun_up(f['min_alt']), want
     raise ValueError(kind)
+
+
+def _apply_filter(w, f, ts, leap):
+    """Apply filter spec `f` with the real code; return (filtered Wea, expected source positions)."""
+    from ladybug.analysisperiod import AnalysisPeriod
+    want = _expected_positions(w, f, ts, leap)
+    kind = f['kind']
+    if kind == 'period':
+        return w.filter_by_analysis_period(AnalysisPeriod(*(f['args'] + [ts, leap]))), want
+    if kind == 'moys':
+        return w.filter_by_moys(f['moys']), want
+    if kind == 'hoys':
+        return w.filter_by_hoys([m / 60.0 for m in f['moys']]), want
+    if kind == 'pattern':
+        return w.filter_by_pattern(f['pattern']), want
+    return w.filter_by_sun_up(f['min_alt']), want
 
 
 def _check_file_rt(w, ts, leap, sig):
@@ -1333,7 +1328,7 @@ def _oracle_cases(ctx):
                 n = _hours(leap) * ts
                 yield 'axis', {'ts': ts, 'leap': leap, 'onhour': onhour, 'idx': _axis_indices(rng, ts, leap, 300)}
     # file and dict round trips of directly built Weas
-    for _ in range(ctx.n(260, 5000) * (3 if ctx.searching else 1)):
+    for _ in range(ctx.n(220, 3000) * (3 if ctx.searching else 1)):
         ts = rng.choice([1, 1, 2, 3, 4, 6]) if rng.random() < 0.7 else rng.choice(VALID_TS)
         leap = rng.random() < 0.5
         mode = rng.choice([0, 1])
@@ -1359,7 +1354,7 @@ def _oracle_cases(ctx):
         yield 'dict_rt', {'kind': 'annual', 'ts': ts, 'leap': leap, 'period': [1, 1, 12, 31], 'mode': 0}
     # filters (source: annual / partial / sparse), some followed by a file round trip
     bases = {}
-    for _ in range(ctx.n(90, 2500) * (3 if ctx.searching else 1)):
+    for _ in range(ctx.n(80, 1400) * (3 if ctx.searching else 1)):
         ts = rng.choice([1, 1, 2, 3, 4])
         leap = rng.random() < 0.5
         r = rng.random()
@@ -1406,7 +1401,7 @@ def _oracle_cases(ctx):
                        'out': rng.choice(['stdout', 'file'])})
     combos.append({'cmd': 'wea-to-constant', 'assets': 'epw', 'file': 'chicago.epw', 'value': 250, 'out': 'file'})
     if not big:
-        combos = rng.sample(combos[:14], 3) + [combos[14]] + rng.sample(combos[16:], 2)
+        combos = rng.sample(combos[:14], 2) + [combos[14]] + rng.sample(combos[16:], 2)
     for c in combos:
         yield 'cli', c
     # static helpers, daysim, sky models
